@@ -853,7 +853,13 @@ def part_parse(ctx, nd):
                      ("mul", ("dot", ("name", "A"), ("name", "B")), ("name", "A")),
                      ("pow", ("name", "A"), 0), ("pow", ("name", "A"), -2), ("pow", ("int", 2), -1),
                      ("div", ("name", "A"), ("int", 0)), ("add", ("name", "A"), ("int", 2)),
-                     ("mul", ("int", 2), ("name", "Identity")), ("sub", ("int", 1), ("flt", F(1, 4), ".25"))]
+                     ("mul", ("int", 2), ("name", "Identity")), ("sub", ("int", 1), ("flt", F(1, 4), ".25")),
+                     # every spelling of a Python number is a number (upper-case exponent and radix letters included)
+                     ("mul", ("flt", F(10), "1E1"), ("name", "A")), ("flt", F(2), "2E0"),
+                     ("mul", ("flt", F(1, 4), "2.5E-1"), ("name", "A")),
+                     ("add", ("mul", ("flt", F(10), "0XA"), ("name", "A")), ("name", "B")),
+                     ("mul", ("flt", F(3), "0B11"), ("name", "A")), ("mul", ("name", "A"), ("flt", F(15), "0O17")),
+                     ("mul", ("flt", F(1, 2), "5e-1"), ("name", "A")), ("mul", ("flt", F(10), "0xa"), ("name", "B"))]
             for t in fixed:
                 for strict in (True, False):
                     check_parse(ctx, rng, alg, d, strict, entries, cands, bound, render(t, rng, ws=False), t, nd)
